@@ -96,7 +96,7 @@ def run(chk, repo, tier):
     chk.ob('C05-c', 'R-sign', fi.key, 'the intensity branch adds a non-negative value', ok and n > 0,
            det or f'{n} path(s): abs()-derived', fi.loc())
     for key in ('wavefront.Wavefront.intensity',):
-        fw, wp, _ = analyse(repo, key)
+        fw, wp, _ = analyse(repo, key, inline=['wavefront.Wavefront.insert'], types={('sym', 'self'): repo.cls('wavefront.Wavefront')})
         okz = oki = False
         for p in returns(wp):
             ins = p.calls('field.insert')
@@ -106,6 +106,10 @@ def run(chk, repo, tier):
                 pre = lp['pre'].get(var)
                 pa = pre.single_atom() if isinstance(pre, Poly) else None
                 okz = pa is not None and is_app(pa, 'zeros')
+            elif ins:
+                # the accumulator threaded through a fold that hands it back: every insert works on the initial array
+                oa_ = ins[0].bound.get('out').single_atom() if isinstance(ins[0].bound.get('out'), Poly) else None
+                okz = oa_ is not None and is_app(oa_, 'zeros') and ins[0].in_loop
             oki = len(ins) == 1 and ins[0].bound.get('intensity') == TRUE and ins[0].bound.get('weight') == C(1)
         chk.ob('C05-c', 'R-sign', key, 'starts from zeros', okz, '', fw.loc())
         chk.ob('C05-c', 'R-sign', key, 'adds only intensities with weight 1', oki, '', fw.loc())
